@@ -691,7 +691,11 @@ func (api *API) hasKeyOfMember(m map[string]any, memberType reflect.Type, visite
 
 		return registered && objectType != nil
 	case memberType.Kind() != reflect.Struct || memberType == timeType || memberType == bigIntPtrType.Elem():
-		return true
+		// what is inlined and is neither a struct nor an interface is written as an object that carries its type code
+		// (a typed byte array or slice, ...): every other map form is refused by the encoder
+		_, has := m[keyType]
+
+		return has
 	}
 
 	structFields, err := api.getStructFields(memberType)
